@@ -24,7 +24,9 @@ EXIT_STEP_BUDGET = 98
 EXIT_DEADLOCK = 99
 EXIT_HARNESS = 96
 
-STRATEGIES = ["rr", "random:20", "random:100", "random:300", "random:700", "pct:2", "pct:5"]
+# "lazy:<p>" = random:<p> with lazy workers (idle pool workers run only when nothing else can): detached
+# tasks that nobody waits for are starved until exit.
+STRATEGIES = ["rr", "random:20", "random:100", "random:300", "random:700", "pct:2", "pct:5", "lazy:100"]
 
 
 class HarnessError(Exception):
@@ -89,8 +91,13 @@ class Plan:
     """A simulation plan: everything that decides one run."""
 
     def __init__(self, seed, strategy="random:100", faults=(), log_level=1, max_steps=5_000_000,
-                 decisions_in=None, hash_seed=None):
+                 decisions_in=None, hash_seed=None, base_strategy=None):
         self.seed = int(seed)
+        # A replay plan must reproduce the candidate sets of the recorded run: carry over whether
+        # that run had lazy workers.
+        self.lazy = (base_strategy or strategy).startswith("lazy:")
+        if strategy.startswith("lazy:"):
+            strategy = "random:" + strategy.split(":", 1)[1]
         self.strategy = strategy
         self.faults = list(faults)
         self.log_level = log_level
@@ -100,7 +107,9 @@ class Plan:
 
     def to_json(self):
         return {
-            "seed": self.seed, "strategy": self.strategy, "faults": self.faults,
+            "seed": self.seed, "strategy": ("lazy:" + self.strategy.split(":", 1)[1]) if self.lazy and
+            self.strategy.startswith("random:") else self.strategy, "lazy": self.lazy,
+            "faults": self.faults,
             "log_level": self.log_level, "max_steps": self.max_steps, "hash_seed": self.hash_seed,
         }
 
@@ -112,6 +121,8 @@ class Plan:
     def write(self, path, out_prefix):
         lines = [f"seed={self.seed}", f"strategy={self.strategy}", f"out={out_prefix}",
                  f"log_level={self.log_level}", f"max_steps={self.max_steps}"]
+        if self.lazy:
+            lines.append("lazy_workers=1")
         if self.decisions_in:
             lines.append(f"decisions_in={self.decisions_in}")
         for f in self.faults:
